@@ -814,7 +814,7 @@ func runC15(t *mon.T, raw json.RawMessage) {
 
 func genC15(g *mon.G) {
 	r := gen.Rand(g.Seed)
-	n := g.Pick(200, 3000)
+	n := g.Pick(800, 15000)
 	dpads := []uint64{0, 0, 1, 7, 1413}
 	ipads := []uint64{0, 0, 1, 1024}
 	sels := []string{"all", "all", "all", "all", "depth", "depth", "depth", "fields", "fields", "fields+all"}
